@@ -350,9 +350,45 @@ fn run_ops(case: &str) -> (String, String, String) {
                     .filter_map(|c| c.1)
                     .filter(|n| matches!(w.env.traps.get_state(*n).0, Some(TrapState { action: Action::Command(_), .. })))
                     .collect();
+                // What the documentation of `enter_subshell` says must be installed afterwards, from the
+                // state before and the ledger only (never from what the call did): SIGINT/SIGQUIT of an
+                // asynchronous list are ignored whatever the trap set held for them; enabled stoppers stay
+                // ignored under `keep_stoppers`; otherwise the POSIX reset of the action, merged with
+                // SIGCHLD's internal disposition only; an unknown signal is not touched.
+                // (signal, disposition wanted, whether the recorded action must be `Ignore` too)
+                let want: Vec<(Number, Disposition, bool)> = CONDS
+                    .iter()
+                    .filter_map(|c| c.1)
+                    .map(|n| {
+                        if i && (n == SIGINT || n == SIGQUIT) {
+                            (n, Disposition::Ignore, true)
+                        } else if ks && (n == SIGTSTP || n == SIGTTIN || n == SIGTTOU) && l.need(n) != Disposition::Default {
+                            (n, Disposition::Ignore, true)
+                        } else {
+                            match w.env.traps.get_state(n).0 {
+                                None => (n, w.disp(n), false),
+                                Some(ts) => {
+                                    let reset = match &ts.action {
+                                        Action::Command(_) => Disposition::Default,
+                                        a => a.into(),
+                                    };
+                                    let keep = if n == SIGCHLD { l.need(n) } else { Disposition::Default };
+                                    (n, dmax(keep, reset), false)
+                                }
+                            }
+                        }
+                    })
+                    .collect();
                 w.env.traps.enter_subshell(&system, i, ks).now_or_never();
                 // "Internal dispositions that have been installed are cleared except for SIGCHLD."
                 l.need.retain(|n, _| *n == SIGCHLD);
+                for (n, d, ignore) in want {
+                    if w.disp(n) != d {
+                        fail = Some(format!("subshell-disposition:{}:installed={}:expected={}", name_of(n), show_disp(w.disp(n)), show_disp(d)));
+                    } else if ignore && !w.env.traps.get_state(n).0.is_some_and(|t| t.action == Action::Ignore) {
+                        fail = Some(format!("subshell-action-not-ignore:{}", name_of(n)));
+                    }
+                }
                 // POSIX: traps that are not ignored are reset to default in a subshell
                 for n in commands {
                     let (cur, par) = w.env.traps.get_state(n);
@@ -589,9 +625,38 @@ fn run_ops(case: &str) -> (String, String, String) {
                     }
                 }
             }
-            ["run", e] | ["irun", _, e] => {
+            ["run", e] | ["irun", _, e] | ["frun", _, e] => {
                 let Ok(e) = e.parse::<i32>() else { return bad() };
                 let mut raised: Option<Number> = None;
+                // `frun FRAMES N`: the frames are pushed on `env.stack` (outermost first) around the call
+                let mut frames: Vec<yash_env::stack::Frame> = vec![];
+                if let ["frun", fr, _] = ws.as_slice() {
+                    use yash_env::stack::Frame;
+                    if *fr != "-" {
+                        for f in fr.split('.') {
+                            frames.push(match f {
+                                "L" => Frame::Loop,
+                                "S" => Frame::Subshell,
+                                "C" => Frame::Condition,
+                                "D" => Frame::DotScript,
+                                "I" => Frame::InitFile,
+                                "B" => Frame::Builtin(yash_env::stack::Builtin { name: yash_env::semantics::Field::dummy("eval"), is_special: true }),
+                                t if t.starts_with('T') => match cond_of(&t[1..]) {
+                                    Some(c) => Frame::Trap(c),
+                                    None => return bad(),
+                                },
+                                _ => return bad(),
+                            });
+                        }
+                    }
+                }
+                // is a signal trap action running in this shell process?  (outermost frame first: a
+                // `Subshell` frame starts a new process, a signal trap frame is remembered)
+                let in_trap = frames.iter().fold(false, |acc, f| match f {
+                    yash_env::stack::Frame::Subshell => false,
+                    yash_env::stack::Frame::Trap(Condition::Signal(_)) => true,
+                    _ => acc,
+                });
                 if let ["irun", sname, _] = ws.as_slice() {
                     // send the signal first (unless that would kill the process); the runner polls itself
                     let Some(n) = sig_of(sname) else { return bad() };
@@ -618,10 +683,23 @@ fn run_ops(case: &str) -> (String, String, String) {
                     .collect();
                 w.env.exit_status = ExitStatus(e);
                 let from = w.stdout_len();
-                let res = yash_semantics::trap::run_traps_for_caught_signals(&mut w.env).now_or_never();
+                fn with_frames<R>(env: &mut VEnv, frames: &[yash_env::stack::Frame], f: &mut dyn FnMut(&mut VEnv) -> R) -> R {
+                    match frames.split_first() {
+                        None => f(env),
+                        Some((fr, rest)) => {
+                            let mut g = env.push_frame(fr.clone());
+                            with_frames(&mut g, rest, f)
+                        }
+                    }
+                }
+                let depth = w.env.stack.len();
+                let res = with_frames(&mut w.env, &frames, &mut |env| yash_semantics::trap::run_traps_for_caught_signals(env).now_or_never());
                 let Some(res) = res else {
                     return ("TIMEOUT(run_traps)".into(), "FAIL:timeout".into(), String::new());
                 };
+                if w.env.stack.len() != depth {
+                    fail = Some("stack-not-restored".into());
+                }
                 use std::ops::ControlFlow::{Break, Continue};
                 use yash_env::semantics::Divert;
                 let div = match res {
@@ -676,6 +754,11 @@ fn run_ops(case: &str) -> (String, String, String) {
                 total.extend(still_due.iter().cloned());
                 if total != due {
                     fail = Some(format!("runs:{}:left:{}:due:{}", ran.join("+"), still_due.join("+"), due.join("+")));
+                } else if in_trap {
+                    // no trap action while another is running in this process: nothing runs, nothing is lost
+                    if !ran.is_empty() || div != "-" {
+                        fail = Some(format!("ran-inside-trap:{}", ran.join("+")));
+                    }
                 } else if div == "-" && !still_due.is_empty() {
                     fail = Some(format!("left-pending:{}", still_due.join("+")));
                 }
@@ -688,7 +771,11 @@ fn run_ops(case: &str) -> (String, String, String) {
                 if errored && div != "int2" {
                     fail = Some("error-status-lost".into());
                 }
-                format!("runs={};exit={};div={}", runs.join(","), w.env.exit_status.0, div)
+                if let ["frun", ..] = ws.as_slice() {
+                    format!("runs={};exit={};div={};intrap={}", runs.join(","), w.env.exit_status.0, div, in_trap as u8)
+                } else {
+                    format!("runs={};exit={};div={}", runs.join(","), w.env.exit_status.0, div)
+                }
             }
             _ => return bad(),
         };
@@ -1178,6 +1265,39 @@ fn run_tb_case(case: &str) -> (String, String) {
             if ran > sent + 1 {
                 oracle = format!("FAIL:{sig}:delivered-{}-ran-{ran}", sent + 1);
             }
+        }
+    }
+    // `bg PC INT QUIT , R 78 …`: POSIX 2.11 — without job control the commands of an asynchronous list inherit
+    // SIGINT and SIGQUIT ignored, whatever the shell did with its traps before (`trap - INT`, `trap -p`, plain
+    // `trap`, nothing at all).  `trap -p INT QUIT` inside the list must print `''` for both, right before the
+    // sentinel.  (Skipped if a command trap was set on one of them: `trap -p` in a subshell that has not changed
+    // its traps prints the traps of the parent.)
+    for (i, p) in parts.iter().enumerate() {
+        if p.first() != Some(&"bg") {
+            continue;
+        }
+        let inner: Vec<Vec<&str>> = p[1..].split(|w| *w == ",").map(|v| v.to_vec()).collect();
+        if inner.len() < 2 || inner[0] != ["PC", "INT", "QUIT"] || inner[1] != ["R", "78"] {
+            continue;
+        }
+        let names = ["INT", "QUIT", "2", "3"];
+        let command_trap_before = parts[..i].iter().any(|q| match q.as_slice() {
+            ["T", a, ops @ ..] => (a.starts_with('c') || a.starts_with('k') || a.starts_with('r')) && ops.iter().any(|o| names.contains(o)),
+            _ => false,
+        });
+        let left_early = parts[..i].iter().any(|q| matches!(q.first(), Some(&"X") | Some(&"TX") | Some(&"K") | Some(&"W")));
+        if command_trap_before || left_early {
+            continue;
+        }
+        let sentinel = format!(":{}", enc_str("78"));
+        match lines.iter().position(|l| l.ends_with(&sentinel) && !l.starts_with("T:")) {
+            Some(pos) if pos >= 2 && lines[pos - 2] == "T:E:INT" && lines[pos - 1] == "T:E:QUIT" => {}
+            Some(pos) => {
+                let got: Vec<String> = lines[pos.saturating_sub(2)..pos].to_vec();
+                oracle = format!("FAIL:async-list-int-quit-not-ignored:got={}", got.join("+"));
+            }
+            None if end == "exit" => oracle = "FAIL:sentinel-missing".into(),
+            None => {}
         }
     }
     for l in &lines {
@@ -1728,6 +1848,21 @@ fn random_op(r: &mut Rng, sigs: &[&str]) -> String {
             let x = if s == "KILL" || s == "STOP" || s == "INT" { "USR1" } else { s };
             r.pick(&[format!("blk {x}+INT"), format!("blk {x}/INT"), format!("blk {x}+{x}/TERM+INT+{x}"), "blk INT".to_string()]).clone()
         }
+        _ if r.chance(1, 4) => {
+            // the runner under a random execution stack
+            let n = r.below(5);
+            let fr: Vec<String> = (0..n)
+                .map(|_| match r.below(8) {
+                    0 => "L".to_string(),
+                    1 | 2 => "S".to_string(),
+                    3 => "C".to_string(),
+                    4 => r.pick(&["D", "B", "I"]).to_string(),
+                    5 => "TEXIT".to_string(),
+                    _ => format!("T{}", if s == "KILL" || s == "STOP" { "USR1" } else { s }),
+                })
+                .collect();
+            format!("frun {} {}", if fr.is_empty() { "-".to_string() } else { fr.join(".") }, r.below(4))
+        }
         _ => format!("run {}", r.below(4)),
     }
 }
@@ -1809,6 +1944,33 @@ fn main() {
         }
         let case = parts.join("; ");
         lazy(&case);
+    }
+
+    // 2b. the runner under an execution stack (`in_trap`): every stack of up to 3 frames over
+    //     {loop, subshell, dot script, EXIT trap, signal trap} (quick: a sample), plus longer ones; two trapped
+    //     signals pending (one action ends in `return`), then a plain boundary
+    {
+        let alpha = ["L", "S", "D", "TEXIT", "TUSR1", "TINT"];
+        let mut stacks: Vec<String> = vec!["-".into()];
+        for a in alpha {
+            stacks.push(a.to_string());
+            for b in alpha {
+                stacks.push(format!("{a}.{b}"));
+                for c in alpha {
+                    stacks.push(format!("{a}.{b}.{c}"));
+                }
+            }
+        }
+        for x in ["C.B.I", "TUSR1.L.C.D.B", "TUSR1.L.S.C.TEXIT.D", "S.TINT.S.TUSR1.S", "TTERM.S.L.TCHLD.C", "I.TEXIT.TEXIT.L"] {
+            stacks.push(x.to_string());
+        }
+        for (i, st) in stacks.iter().enumerate() {
+            if !o.thorough() && st.matches('.').count() == 2 && i % 3 != 0 {
+                continue;
+            }
+            lazy(&format!("set USR1 c1 0; set INT c1002 0; catch INT; catch USR1; frun {st} 5; frun {st} 6; run 7"));
+            lazy(&format!("chld; set CHLD c3 0; catch CHLD; frun {st} 4; sub 0 0; frun {st} 3"));
+        }
     }
 
     // 3. scripts: the signal at every command boundary, two ways of sending it, seven layouts
@@ -2026,6 +2188,17 @@ fn main() {
             for inner in ["P", "PC INT QUIT 0", "T E TERM , P", "T c3 INT , PC INT QUIT", "T - INT , T c4 0 , R 5", "X 3"] {
                 emit_tb(format!("tb {pre}{kind} {inner}; R 1; P"), &mut out);
             }
+        }
+    }
+    // (e") an asynchronous list gets SIGINT/SIGQUIT ignored whatever the trap set held for them before:
+    //      nothing, `{Default}` entries left by `trap - SIG` / `trap -p` / plain `trap`, `Ignore`, ignored on entry
+    for pre in [
+        "", "T - INT; ", "T - QUIT; ", "T - INT QUIT; ", "T - 2 3; ", "TN 2; ", "TN 3; ", "PC INT; ", "PC QUIT INT; ", "P; ", "PP; ",
+        "T E INT; ", "T E QUIT; T - INT; ", "ign INT; ", "ign QUIT; T - QUIT; ", "T c1 USR1; T - INT; ", "T c1 INT; T - INT; ",
+        "T c2 QUIT; T E QUIT; T - QUIT; ", "sub T - INT; ", "T - INT; sub R 4; ",
+    ] {
+        for tail in ["", " , T c3 INT , PC INT", " , P"] {
+            emit_tb(format!("tb {pre}bg PC INT QUIT , R 78{tail}; R 1; PC INT QUIT"), &mut out);
         }
     }
     // (e') actions that deliver their own signal again while they run (once: they replace themselves
